@@ -14,18 +14,22 @@ Inductive rawev :=
 | RAns (p ridx ep : int)
 | RRoam (p ep : int)
 | RShift (p : int)
-| RExp (p : int).
+| RExp (p : int)
+| RDown
+| RUp.
 
 (* [kind; peer+1; session serial; endpoint; receiver; counter hi32; counter lo32; datagram length; plaintext length] *)
 Definition rawobs := (list int * list int)%type.
 
 Inductive case :=
-| Scenario (hdr : list int)              (* [mtu; ipv4.HeaderLen; ipv6.HeaderLen] *)
+| Scenario (hdr : list int)              (* [mtu; ipv4.HeaderLen; ipv6.HeaderLen; partial 0|1] partial = the last step did
+                                            not settle: only the property is judged on what was emitted, not the model *)
            (tbl : list (list int))       (* [family 4|6; prefix length; owner; w0; w1; w2; w3] 32-bit words, v4 in w0 *)
            (peers : list int)            (* configured endpoint id per peer, 0 = none *)
            (evs : list rawev)
            (obs : list (list rawobs))
-| PadSweep (mtu : int) (lens : list int) (pads : list int).
+| PadSweep (mtu : int) (lens : list int) (pads : list int)
+| Crashed.                               (* the device panicked in this scenario *)
 
 Definition ni := n_of_int.
 Definition nthi (l : list int) (k : nat) : N := ni (nth k l 0%uint63).
@@ -47,6 +51,8 @@ Definition dec_ev (r : rawev) : event :=
   | RRoam p e => Roam (ni p) (ni e)
   | RShift p => ShiftHs (ni p)
   | RExp p => Expire (ni p)
+  | RDown => Down
+  | RUp => Up
   end.
 
 Definition dec_obs (r : rawobs) : obs :=
@@ -125,13 +131,14 @@ Definition check_case (c : case) : list (N * N) :=
       let es := map dec_ev evs in
       let ob := map (map dec_obs) obs in
       let mtu := Z.of_N (nthi hdr 0) in
-      let st0 := {| s_tbl := t; s_mtu := mtu; s_peers := map init_peer peers |} in
+      let st0 := {| s_tbl := t; s_mtu := mtu; s_up := true; s_peers := map init_peer peers |} in
       let sp0 := {| sp_mtu := mtu; sp_peers := map init_speer peers; sp_nsess := 0; sp_avail := [] |} in
-      opt_fail 1 (cmp_steps (N.of_nat (length peers)) (outs step st0 es) ob 0) ++
+      (if nthi hdr 3 =? 0 then opt_fail 1 (cmp_steps (N.of_nat (length peers)) (outs step st0 es) ob 0) else []) ++
       opt_fail 2 (holds_trace (effective t) sp0 es ob 0)
   | PadSweep mtu lens pads =>
       let m := Z.of_N (ni mtu) in
       opt_fail 1 (pad_cmp m lens pads 0 false) ++ opt_fail 2 (pad_cmp m lens pads 0 true)
+  | Crashed => [(1, 0)]
   end.
 
 Fixpoint check_cases (ks : list case) (idx : N) : list (N * N * N) :=
@@ -179,11 +186,12 @@ Definition stats_case (st : list N) (c : case) : list N :=
   | Scenario hdr tbl peers evs obs =>
       let t := map dec_entry tbl in
       let es := map dec_ev evs in
-      let st0 := {| s_tbl := t; s_mtu := Z.of_N (nthi hdr 0); s_peers := map init_peer peers |} in
+      let st0 := {| s_tbl := t; s_mtu := Z.of_N (nthi hdr 0); s_up := true; s_peers := map init_peer peers |} in
       let st := fold_left (fun a e => match e with TunBatch l => fold_left (stat_pkt t) l a | _ => a end) es st in
       fold_left (fun a os => fold_left stat_out os a) (outs step st0 es) st
   | PadSweep mtu lens pads =>
       fold_left (fun a l => bump a (pad_branch (Z.of_N (ni l)) (Z.of_N (ni mtu)))) lens st
+  | Crashed => st
   end.
 
 Definition stats (ks : list case) : list N :=
